@@ -2,7 +2,7 @@ SPECIFICATION Spec
 INVARIANTS StackIsOpeners DepthBounded TriviaMeansNoBrackets
 PROPERTY StrayIsFinal
 CONSTANTS
-  Alphabet = {"(", ")", "[", "]", "{", "}", "a", "sp", "nl", "sc", "dq", "sq", "bq", "sl", "st", "hs"}
+  Alphabet = {"(", ")", "[", "]", "{", "}", "a", "sp", "nl", "sc", "dq", "sq", "bq", "sl", "st", "hs", "bs", "dl"}
   MaxLen = 5
   ShardK = 0
   ShardN = 1
